@@ -51,15 +51,18 @@ type Case struct {
 	Ser       string      `json:"ser"`
 	Steps     []Step      `json:"steps"`
 	// During: "" = between updates; "acc-held": H proposes an update and M's
-	// acceptance is held back while M registers; "prop-held": M proposes an
+	// acceptance is held back while M registers; "handler-held": M proposes an
+	// update and H's user handler takes its time to accept it while M registers;
+	// "prop-held": M proposes an
 	// update which is held back while M registers.
-	During     string `json:"during"`
-	InFlight   Step   `json:"inflight"`
-	RaceStart  bool   `json:"racestart"` // the honest party proposes its first update at the very moment its Channel.Watch registers the channel with the watcher
-	OldPick    int    `json:"oldpick"`   // which of M's enabled ledger transactions is registered
-	SubPick    int    `json:"subpick"`   // which earlier sub-channel transaction goes with it
-	Order      []int  `json:"order"`
-	Concurrent bool   `json:"concurrent"`
+	During       string `json:"during"`
+	InFlight     Step   `json:"inflight"`
+	RaceStart    bool   `json:"racestart"`    // the honest party proposes its first update at the very moment its Channel.Watch registers the channel with the watcher
+	ReleaseEarly bool   `json:"releaseearly"` // the held message is released right after the registration call returned instead of after the system has become quiet
+	OldPick      int    `json:"oldpick"`      // which of M's enabled ledger transactions is registered
+	SubPick      int    `json:"subpick"`      // which earlier sub-channel transaction goes with it
+	Order        []int  `json:"order"`
+	Concurrent   bool   `json:"concurrent"`
 }
 
 func drawCase(t *rapid.T) Case {
@@ -95,9 +98,10 @@ func drawCase(t *rapid.T) Case {
 		}
 		c.Steps = append(c.Steps, s)
 	}
-	c.During = rapid.SampledFrom([]string{"", "", "acc-held", "prop-held"}).Draw(t, "during")
+	c.During = rapid.SampledFrom([]string{"", "", "acc-held", "prop-held", "handler-held"}).Draw(t, "during")
 	c.InFlight = Step{Kind: "pay", Asset: rapid.IntRange(0, na-1).Draw(t, "ifasset"), Amount: uint64(rapid.IntRange(1, 15).Draw(t, "ifamount")), ToM: rapid.IntRange(0, 3).Draw(t, "iftom") == 0}
 	c.RaceStart = rapid.IntRange(0, 3).Draw(t, "racestart") == 0
+	c.ReleaseEarly = rapid.Bool().Draw(t, "releaseearly")
 	c.OldPick = rapid.IntRange(0, 40).Draw(t, "oldpick")
 	c.SubPick = rapid.IntRange(0, 40).Draw(t, "subpick")
 	switch rapid.IntRange(0, 2).Draw(t, "order") {
@@ -131,6 +135,33 @@ func serializer(name string) wire.EnvelopeSerializer {
 
 const startBalance = 1000
 
+// gate is something that catches the in-flight update and lets it continue on
+// Release: a paused bus link or a user handler that takes its time.
+type gate interface {
+	Caught() <-chan struct{}
+	Release()
+}
+
+type handlerGate struct {
+	caught, release chan struct{}
+	once, rel       sync.Once
+}
+
+func (g *handlerGate) Caught() <-chan struct{} { return g.caught }
+func (g *handlerGate) Release()                { g.rel.Do(func() { close(g.release) }) }
+
+func busPred(during string, ledgerID channel.ID, nextV uint64) func(e *wire.Envelope) bool {
+	return func(e *wire.Envelope) bool {
+		switch m := e.Msg.(type) {
+		case *client.ChannelUpdateAccMsg:
+			return during == "acc-held" && m.ChannelID == ledgerID && m.Version == nextV
+		case *client.ChannelUpdateMsg:
+			return during == "prop-held" && m.State.ID == ledgerID && m.State.Version == nextV
+		}
+		return false
+	}
+}
+
 type enabledTx struct {
 	seq uint64
 	tx  channel.Transaction
@@ -154,7 +185,7 @@ func pay(pr *sim.Pair, chs [2]*client.Channel, by, to int, asset int, amount uin
 	return pr.UpdateLimit(by, ch, sim.Transfer(asset, from, new(big.Int).SetUint64(amount), false), true, limit)
 }
 
-func runCase(c Case) *h.Outcome {
+func runCase(c Case, known func(string) bool) *h.Outcome {
 	o := &h.Outcome{}
 	fail := func(sig, format string, args ...any) *h.Outcome {
 		o.Fail = h.Failf(sig, format, args...)
@@ -279,7 +310,7 @@ func runCase(c Case) *h.Outcome {
 	subOpen := pr.Sub[0] != nil
 
 	// ---- the in-flight update, held back on the bus
-	var hold *sim.Hold
+	var hold gate
 	inflightDone := make(chan error, 1)
 	during := c.During
 	if during != "" {
@@ -292,20 +323,25 @@ func runCase(c Case) *h.Outcome {
 		} else {
 			nextV := pr.Ch[H].State().Version + 1
 			by := H
-			if during == "prop-held" {
+			if during == "prop-held" || during == "handler-held" {
 				by = M
 			}
-			hold = pr.Env.Bus.Hold(func(e *wire.Envelope) bool {
-				switch m := e.Msg.(type) {
-				case *client.ChannelUpdateAccMsg:
-					return during == "acc-held" && m.ChannelID == ledgerID && m.Version == nextV
-				case *client.ChannelUpdateMsg:
-					return during == "prop-held" && m.State.ID == ledgerID && m.State.Version == nextV
-				}
-				return false
-			})
+			if during == "handler-held" {
+				hg := &handlerGate{caught: make(chan struct{}), release: make(chan struct{})}
+				pr.P[H].SetHandlers(nil, func(_ *channel.State, _ client.ChannelUpdate, r *client.UpdateResponder) {
+					hg.once.Do(func() { close(hg.caught) })
+					<-hg.release
+					ctx, cancel := context.WithTimeout(context.Background(), sim.HangLimit)
+					defer cancel()
+					_ = r.Accept(ctx)
+				})
+				hold = hg
+			} else {
+				hold = pr.Env.Bus.Hold(busPred(during, ledgerID, nextV))
+			}
+
 			go func() {
-				inflightDone <- pay(pr, pr.Ch, by, to, c.InFlight.Asset, c.InFlight.Amount, 5*time.Second)
+				inflightDone <- pay(pr, pr.Ch, by, to, c.InFlight.Asset, c.InFlight.Amount, 1500*time.Millisecond)
 			}()
 			select {
 			case <-hold.Caught():
@@ -348,18 +384,39 @@ func runCase(c Case) *h.Outcome {
 	regCtx, cancel := context.WithTimeout(context.Background(), sim.HangLimit)
 	defer cancel()
 	regTime := L.Clock.Now()
+	// what H had agreed to when the registration was made
+	atReg, ok := pr.P[H].Rec.LastEnabled(ledgerID)
+	if !ok {
+		return fail("harness", "honest party has no enabled transaction")
+	}
+	atRegSub := map[channel.ID]channel.Transaction{}
+	for _, lk := range atReg.State.Locked {
+		if tx, ok := pr.P[H].Rec.LastEnabled(lk.ID); ok {
+			atRegSub[lk.ID] = tx
+		}
+	}
+	if hold != nil && c.ReleaseEarly && during != "handler-held" {
+		L.HoldEvents(pr.P[H].Name)
+	}
 	if err := pr.P[M].View.Register(regCtx, channel.AdjudicatorReq{Params: pr.Ch[M].Params(), Tx: old.tx, Idx: pr.Ch[M].Idx()}, subs); err != nil {
 		return fail("harness-register", "the reference ledger refused the adversary's registration of a genuinely signed state: %v", err)
 	}
 	if hold != nil {
-		// let the watcher see the registration first, then let the update continue
-		pr.Env.Quiesce(20*time.Millisecond, sim.HangLimit)
+		if c.ReleaseEarly && during != "handler-held" {
+			// the chain node of the honest party reports the registration only
+			// after the update has gone through (event latency > message latency)
+			o.Class("release-early")
+		} else {
+			// let the watcher and the client see the registration first, then let the update continue
+			pr.Env.Quiesce(20*time.Millisecond, sim.HangLimit)
+		}
 		hold.Release()
 		select {
 		case <-inflightDone: // may fail: the channel is in dispute now
 		case <-time.After(sim.HangLimit):
 			return fail("inflight-hang", "the in-flight update did not return within the hang limit after the registration")
 		}
+		L.ReleaseEvents()
 	}
 	if !pr.Env.Quiesce(150*time.Millisecond, sim.HangLimit) {
 		return fail("harness", "world did not become quiet after the registration")
@@ -390,13 +447,30 @@ func runCase(c Case) *h.Outcome {
 	} else {
 		o.Class("not-outdated")
 	}
+	// ref is the state the remaining clauses are judged against: H's newest
+	// agreed state - or, for a listed known finding about states agreed after
+	// the registration, what H had agreed to when the registration was made.
+	ref := newestH
+	refSub := func(id channel.ID) (channel.Transaction, bool) { return pr.P[H].Rec.LastEnabled(id) }
 	if reg.Reg.State.Version < newestH.State.Version {
-		return fail("not-refuted:ledger-channel:"+during, "adversary registered v%d; the honest party's newest agreed state is v%d but v%d is registered when the system is quiet (challenge period still open, registered by %s)", old.tx.State.Version, newestH.State.Version, reg.Reg.State.Version, reg.Reg.By)
+		msg := fmt.Sprintf("adversary registered v%d; the honest party's newest agreed state is v%d but v%d is registered when the system is quiet (challenge period still open, registered by %s)", old.tx.State.Version, newestH.State.Version, reg.Reg.State.Version, reg.Reg.By)
+		sig := "not-refuted:ledger-channel"
+		if newestH.State.Version > atReg.State.Version && reg.Reg.State.Version >= atReg.State.Version {
+			// everything H had agreed to at the time of the registration is registered,
+			// but H agreed to a newer state afterwards (update in flight) and that one is not
+			sig = "not-refuted:agreed-after-registration:" + during
+		}
+		if !known(sig) {
+			return fail(sig, "%s", msg)
+		}
+		o.Known = append(o.Known, h.Failf(sig, "%s", msg))
+		ref = atReg
+		refSub = func(id channel.ID) (channel.Transaction, bool) { tx, ok := atRegSub[id]; return tx, ok }
 	}
 	var newestSub channel.Transaction
 	subLocked := false
-	for _, lk := range newestH.State.Locked {
-		ns, ok := pr.P[H].Rec.LastEnabled(lk.ID)
+	for _, lk := range ref.State.Locked {
+		ns, ok := refSub(lk.ID)
 		if !ok {
 			return fail("harness", "honest party has no transaction for a locked sub-channel")
 		}
@@ -406,7 +480,14 @@ func runCase(c Case) *h.Outcome {
 			return fail("not-refuted:sub-channel-unregistered", "sub-channel %s locked in the honest party's newest state has no registered state", sim.Describe(lk.ID))
 		}
 		if sr.Reg.State.Version < ns.State.Version {
-			return fail("not-refuted:sub-channel:"+during, "sub-channel %s: v%d is registered, the honest party's newest agreed state is v%d", sim.Describe(lk.ID), sr.Reg.State.Version, ns.State.Version)
+			return fail("not-refuted:sub-channel:"+during, "sub-channel %s: v%d is registered, the honest party's newest agreed state is v%d (adversary registered ledger channel v%d with sub-channel v%d)", sim.Describe(lk.ID), sr.Reg.State.Version, ns.State.Version, old.tx.State.Version, func() uint64 {
+				for _, s := range subs {
+					if s.State.ID == lk.ID {
+						return s.State.Version
+					}
+				}
+				return 0
+			}())
 		}
 	}
 	_ = subOpen
@@ -426,13 +507,27 @@ func runCase(c Case) *h.Outcome {
 		o.Class("honest-settle-error")
 	}
 	for a, aid := range assets {
-		want := new(big.Int).Set(newestH.State.Balances[a][hIdx])
+		want := new(big.Int).Set(ref.State.Balances[a][hIdx])
 		if subLocked {
 			want.Add(want, newestSub.State.Balances[a][sim.Idx(pr.Sub[H])])
 		}
+		if len(o.Known) > 0 {
+			// known finding F25: some state H agreed to from the registration
+			// onwards gets concluded; H must at least get its balance in the
+			// least favourable of them
+			w2 := new(big.Int).Set(newestH.State.Balances[a][hIdx])
+			for _, lk := range newestH.State.Locked {
+				if tx, ok := pr.P[H].Rec.LastEnabled(lk.ID); ok && pr.Sub[H] != nil {
+					w2.Add(w2, tx.State.Balances[a][sim.Idx(pr.Sub[H])])
+				}
+			}
+			if w2.Cmp(want) < 0 {
+				want = w2
+			}
+		}
 		got := new(big.Int).Sub(L.Balance(pr.P[H].Acc.Address(), aid), before[a])
 		if got.Cmp(want) < 0 {
-			return fail("payout-below-newest", "honest party was paid %v of asset %d; its balance in its newest agreed state (v%d) is %v (Settle error: %v)", got, a, newestH.State.Version, want, res[H].Err)
+			return fail("payout-below-newest", "honest party was paid %v of asset %d; its balance in its newest agreed state (v%d) is %v (Settle error: %v)", got, a, ref.State.Version, want, res[H].Err)
 		}
 	}
 	for _, p := range L.Problems() {
@@ -461,7 +556,7 @@ func TestOutdatedRegistration(t *testing.T) {
 	rapid.Check(t, func(rt *rapid.T) {
 		c := drawCase(rt)
 		rec.MarkCurrent(c)
-		rec.Report(rt, c, runCase(c))
+		rec.Report(rt, c, runCase(c, rec.IsKnown))
 	})
 }
 
@@ -475,7 +570,7 @@ func TestReplay(t *testing.T) {
 		t.Fatal(err)
 	}
 	rec := h.Begin("C04", "replay")
-	o := runCase(c)
+	o := runCase(c, rec.IsKnown)
 	fmt.Println("classes:", o.Classes)
 	rec.Report(t, c, o)
 }
